@@ -88,7 +88,12 @@ def inject(rng, files, names, conds, kind):
             files[0]["decls"].append(("cond", c))
             cands = [(files[0], ("cond", c))]
         f, d = rng.choice(cands)
-        rng.choice(files)["decls"].append(("cond", dslgen.gen_condition(rng, d[1]["name"])))
+        g = rng.choice(files)
+        if len(files) > 1 and rng.random() < 0.5:
+            # the second declaration in ANOTHER file of the SAME module (a module may be spread over several files)
+            g = rng.choice([x for x in files if x is not f])
+            g["module"] = f["module"]
+        g["decls"].append(("cond", dslgen.gen_condition(rng, d[1]["name"])))
         return {"kind": kind, "conflict": True, "condition": d[1]["name"]}
     if kind == "extend-missing":
         f = rng.choice(files)
@@ -164,13 +169,25 @@ def inject(rng, files, names, conds, kind):
         insert_type_decl(g, ("extend", d[1], [(r, simple_expr(rng, [r], names, [])) for r in order]))
         return {"kind": kind, "conflict": True, "type": d[1], "relations": list(twins)}
     if kind == "case-twin-conditions":
-        twins = rng.choice([("check", "Check"), ("In_window", "in_window")])
-        for c in twins:
-            if not any(d[0] == "cond" and d[1]["name"] == c for f in files for d in f["decls"]):
-                rng.choice(files)["decls"].append(("cond", dslgen.gen_condition(rng, c)))
-        g = rng.choice(files)
+        # (or one name a prefix of the other, the longer one declared first: a look-up of the declaration line by prefix ties on them)
+        twins = rng.choice([("check", "Check"), ("In_window", "in_window"), ("viewable_at", "viewable"), ("cond_x", "cond")])
+        if len(files) >= 2 and rng.random() < 0.7:
+            # both first declarations in earlier files, both repetitions in the LAST file: two errors for one file, whose order
+            # must be the same on every invocation
+            g = files[-1]
+            for f in files:
+                f["decls"] = [d for d in f["decls"] if not (d[0] == "cond" and d[1]["name"] in twins)]
+            for c in twins:
+                rng.choice(files[:-1])["decls"].append(("cond", dslgen.gen_condition(rng, c)))
+        else:
+            for c in twins:
+                if not any(d[0] == "cond" and d[1]["name"] == c for f in files for d in f["decls"]):
+                    rng.choice(files)["decls"].append(("cond", dslgen.gen_condition(rng, c)))
+            g = rng.choice(files)
         order = list(twins)
         rng.shuffle(order)
+        if twins[0].startswith(twins[1]) and rng.random() < 0.6:
+            order = list(twins)          # the longer name first
         for c in order:
             g["decls"].append(("cond", dslgen.gen_condition(rng, c)))
         return {"kind": kind, "conflict": True, "conditions": list(twins)}
